@@ -139,7 +139,7 @@ class AFMWriter(ModelToText):
             result = self.read_operand(node.left) + data + self.read_operand(node.right)
         elif node.left or node.right:  # unary operator (NOT): the operand follows the operator
             operand = node.left if node.left else node.right
-            result = data + self.read_operand(operand)
+            result = " " + data + self.read_operand(operand)
         else:
             result = " " + data + " "
 
